@@ -802,6 +802,32 @@ func runCore(seed uint64, n int, out *Out) {
 						ovRaw = sdkmath.LegacyMustNewDecFromStr(ovS).BigInt().String()
 					}
 				}
+				// boundary-directed stake: aim the payout profit at the available liquidity of the participation at the
+				// head of the selected outcome's queue (exactly, one below, one above), where `<` vs `<=` and rounding
+				// mistakes show
+				if r.Chance(25) && ovRaw != "x" {
+					if boe, found := e.App.OrderbookKeeper.GetOrderBookOddsExposure(e.Ctx, m.uid, sel); found && len(boe.FulfillmentQueue) > 0 {
+						if p, ok := e.App.OrderbookKeeper.GetOrderBookParticipation(e.Ctx, m.uid, boe.FulfillmentQueue[0]); ok {
+							ex := sdkmath.ZeroInt()
+							if pes, err := e.App.OrderbookKeeper.GetExposureByOrderBookAndOdds(e.Ctx, m.uid, sel); err == nil {
+								for _, x := range pes {
+									if x.ParticipationIndex == p.Index {
+										ex = x.Exposure
+									}
+								}
+							}
+							avail := p.CurrentRoundLiquidity.Sub(ex).AddRaw(r.Range(-1, 1))
+							if ov, err := sdkmath.LegacyNewDecFromStr(ovS); err == nil && ov.GT(sdkmath.LegacyOneDec()) && avail.IsPositive() {
+								stake := sdkmath.LegacyNewDecFromInt(avail).Quo(ov.Sub(sdkmath.LegacyOneDec())).Ceil().TruncateInt().AddRaw(r.Range(-1, 1))
+								if stake.IsPositive() && stake.IsInt64() && stake.Int64() < 900_000 {
+									amount = stake.Int64() + bp.Constraints.Fee.Int64()
+									mS, mRaw = "1", "1000000000000000000"
+									out.Count("gen.wager.boundary")
+								}
+							}
+						}
+					}
+				}
 				var all []map[string]interface{}
 				var allOp []string
 				for _, o := range m.odds {
@@ -811,6 +837,14 @@ func runCore(seed uint64, n int, out *Out) {
 					ms2, mr2 := genMult(r)
 					all = append(all, map[string]interface{}{"uid": o, "max_loss_multiplier": ms2})
 					allOp = append(allOp, fmt.Sprintf("%d %s", uidN(o), mr2))
+				}
+				if r.Chance(3) {
+					// an outcome the market does not have: the ticket's list is a strict superset of the market's
+					ms2, mr2 := genMult(r)
+					extra := UID(clsOdds, m.n*10+9)
+					all = append(all, map[string]interface{}{"uid": extra, "max_loss_multiplier": ms2})
+					allOp = append(allOp, fmt.Sprintf("%d %s", uidN(extra), mr2))
+					out.Count("gen.wager.superset")
 				}
 				if r.Chance(3) && len(all) > 0 {
 					ms2, mr2 := genMult(r)
@@ -842,6 +876,36 @@ func runCore(seed uint64, n int, out *Out) {
 				}
 				if err == nil {
 					coreReset(h)
+					// C08: a wager is admitted only under the published rules
+					ticketSet := map[string]bool{}
+					for _, x := range all {
+						ticketSet[x["uid"].(string)] = true
+					}
+					match := len(ticketSet) == len(m.odds)
+					for _, o := range m.odds {
+						if !ticketSet[o] {
+							match = false
+						}
+					}
+					inMarket := false
+					for _, o := range m.odds {
+						if o == sel {
+							inMarket = true
+						}
+					}
+					mk, _ := e.App.MarketKeeper.GetMarket(e.Ctx, m.uid)
+					switch {
+					case !match:
+						failOnce(out, h, "C08", "wager_ok_requires", "outcome-list-mismatch", fmt.Sprint(bn), fmt.Sprintf("bet %d accepted although the ticket's outcome list %v is not the market's %v", bn, all, m.odds))
+					case !inMarket:
+						failOnce(out, h, "C08", "wager_ok_requires", "selected-outcome-not-in-market", fmt.Sprint(bn), fmt.Sprintf("bet %d accepted on outcome %s which the market does not have", bn, sel))
+					case bn != nextBet-1:
+						failOnce(out, h, "C08", "wager_ok_requires", "replayed-uid", fmt.Sprint(bn), fmt.Sprintf("bet uid %d accepted a second time", bn))
+					case mk.Status != markettypes.MarketStatus_MARKET_STATUS_ACTIVE || mk.EndTS < uint64(now):
+						failOnce(out, h, "C08", "wager_ok_requires", "market-not-open", fmt.Sprint(bn), fmt.Sprintf("bet %d accepted on market %d with status %v end %d at time %d", bn, m.n, mk.Status, mk.EndTS, now))
+					case sdkmath.NewInt(amount).LT(bp.Constraints.MinAmount):
+						failOnce(out, h, "C08", "wager_ok_requires", "below-minimum", fmt.Sprint(bn), fmt.Sprintf("bet %d accepted with amount %d below the minimum %s", bn, amount, bp.Constraints.MinAmount))
+					}
 					coreSeen.request[UID(clsBet, bn)] = sdkmath.NewInt(amount).Sub(bp.Constraints.Fee)
 					coreSeen.charged[UID(clsBet, bn)] = bettorBefore.Sub(e.Bal(e.Accts[creator]))
 				} else if !bettorBefore.Equal(e.Bal(e.Accts[creator])) {
